@@ -46,13 +46,14 @@ Qed.
 Definition ty_of (th : tcp_hdr) : N := N.land (th_flags th) TYPE_MASK.
 Definition hqt_of (th : tcp_hdr) : list quirk :=
   let f := th_flags th in
-  hqt (fECE f || fCWR f) (th_seq th =? 0) (fACK f) (th_ack th =? 0) (fRST f) (fURG f) (th_urg th =? 0) (fPSH f).
+  hqt (fECE f || fCWR f || th_ns th) (th_seq th =? 0) (fACK f) (th_ack th =? 0) (fRST f) (fURG f) (th_urg th =? 0) (fPSH f).
 Definition code_quirks (q0 : list quirk) (th : tcp_hdr) (items : list opt_item) : list quirk :=
   (q0 ++ hqt_of th) ++ flat_map (item_quirks (ty_of th)) items.
 Definition code_sig (v : ip_version) (ittl : ttl) (olen hdr : N) (q0 : list quirk) (th : tcp_hdr) (opts : bytes) (plen : N) : tcp_sig :=
   let items := options_of opts in
   {| t_version := v; t_ittl := ittl; t_olen := olen; t_mss := spec_mss items;
-     t_wsize := detect_win_multiplicator (th_win th) (match spec_mss items with Some m => m | None => 0 end) hdr (has_ts items) v;
+     t_wsize := detect_win_multiplicator (th_win th) (match spec_mss items with Some m => m | None => 0 end)
+                  (min_total_header v) (has_ts items) v;      (* `hdr` (words / 40) only reaches mtu.rs now *)
      t_wscale := spec_wscale items; t_olayout := spec_layout items;
      t_quirks := code_quirks q0 th items;
      t_pclass := if plen =? 0 then PZero else PNonZero |}.
@@ -102,6 +103,7 @@ Proof.
   all: rewrite <- Hb.
   all: pose proof (tcp_header_quirks_bits t) as HQ; cbv zeta in HQ; rewrite HQ; clear HQ.
   all: replace (byte_at t 13) with (th_flags th) by (rewrite Hth; reflexivity).
+  all: replace (N.odd (byte_at t 12)) with (th_ns th) by (rewrite Hth; reflexivity).
   all: replace (be32_at t 4) with (th_seq th) by (rewrite Hth; reflexivity).
   all: replace (be32_at t 8) with (th_ack th) by (rewrite Hth; reflexivity).
   all: replace (be16_at t 18) with (th_urg th) by (rewrite Hth; reflexivity).
@@ -119,6 +121,11 @@ Proof.
 Qed.
 
 (* ---------------- from the normal form to the SPEC ---------------- *)
+(* `K7 s = false` says no more than: the window field is a 16-bit value (the former class K7 was repaired; the
+   hypothesis keeps its place for Proofs/ReachObs.v) *)
+Lemma win_u16_K7 (s : segment) : th_win (sg_tcp s) < 65536 -> K7 s = false.
+Proof. intros H. unfold K7, win_overflow. lia. Qed.
+
 Lemma code_sig_spec (s : segment) (q0 : list quirk) :
   let ip := sg_ip s in let th := sg_tcp s in let items := options_of (sg_opts s) in
   ih_ver ip <> IpAny -> ih_ttl ip < 256 -> 0 < code_hdr s ->
@@ -132,9 +139,9 @@ Proof.
   unfold code_sig, spec_sig. fold ip th items.
   f_equal.
   - apply ittl_spec. exact Ht.
-  - unfold K7 in HK7. fold ip th items in HK7.
+  - unfold K7, win_overflow in HK7. fold th in HK7.
     destruct (spec_mss items) as [m|] eqn:M.
-    + apply window_spec; [exact Hv | exact Hh | exact HK7].
+    + apply window_spec; [exact Hv | lia].
     + apply window_spec_nomss.
   - apply quirks_eq; assumption.
 Qed.
@@ -144,12 +151,12 @@ Lemma core (db : list (bytes * list N)) (s : segment) (q0 : list quirk) :
   let model := observable_package db
                  (code_pkg (ih_ver ip) (calculate_ttl (ih_ttl ip)) (match ih_ver ip with IpV4 => ih_hlen ip - 20 | _ => 0 end)
                            (code_hdr s) (ih_hlen ip) q0 th (sg_opts s) (sg_payload_len s)) in
-  ih_ver ip <> IpAny -> ih_ttl ip < 256 -> 0 < code_hdr s -> ih_fragment ip = false ->
+  ih_ver ip <> IpAny -> ih_ttl ip < 256 -> 0 < code_hdr s -> ih_fragment ip = false -> th_win th < 65536 ->
   (forall q, memq q (code_quirks q0 th items) = quirk_holds s items q) ->
   known s model = false ->
   model = render db s.
 Proof.
-  intros ip th items model Hv Ht Hh Hfr HM HK.
+  intros ip th items model Hv Ht Hh Hfr Hw HM HK. apply win_u16_K7 in Hw.
   subst model items. unfold known, reportable in HK. subst ip th. rewrite Hfr in HK. cbn [negb andb] in HK.
   unfold render, code_pkg in *. rewrite Hfr.
   destruct (spec_role (th_flags (sg_tcp s))) eqn:R.
@@ -184,6 +191,7 @@ Lemma core' (db : list (bytes * list N)) (s : segment) (q0 : list quirk) v ittl 
   olen = match ih_ver (sg_ip s) with IpV4 => ih_hlen (sg_ip s) - 20 | _ => 0 end ->
   hdr = code_hdr s -> hbytes = ih_hlen (sg_ip s) -> th = sg_tcp s -> opts = sg_opts s -> plen = sg_payload_len s ->
   ih_ver (sg_ip s) <> IpAny -> ih_ttl (sg_ip s) < 256 -> 0 < code_hdr s -> ih_fragment (sg_ip s) = false ->
+  th_win (sg_tcp s) < 65536 ->
   (forall q, memq q (code_quirks q0 (sg_tcp s) (options_of (sg_opts s))) = quirk_holds s (options_of (sg_opts s)) q) ->
   known s (observable_package db (code_pkg v ittl olen hdr hbytes q0 th opts plen)) = false ->
   observable_package db (code_pkg v ittl olen hdr hbytes q0 th opts plen) = render db s.
@@ -311,6 +319,7 @@ Proof.
   assert (F7 : 0 < code_hdr s) by (rewrite <- F3; lia).
   assert (F8 : ih_ver (sg_ip s) = IpV4) by (symmetry; exact F1).
   assert (F9 : ih_flow (sg_ip s) = 0) by (rewrite HIP; reflexivity).
+  assert (F11 : th_win (sg_tcp s) < 65536) by (rewrite Hth; cbn [th_win]; apply be16_at_lt).
   destruct (ih_fragment (sg_ip s)) eqn:FR.
   { intros _. unfold render. rewrite FR. reflexivity. }
   destruct (spec_role (th_flags (sg_tcp s))) eqn:R.
@@ -320,7 +329,7 @@ Proof.
        repeat (apply orb_false_iff in HK'; destruct HK' as [HK' ?]).
   all: rewrite (visit_tcp_nf _ _ _ _ IpV4 _ _ _ _ DT) in HK |- * by (try congruence; apply good_of_known; assumption).
   all: rewrite ipv4_quirks_bits in HK |- *.
-  all: apply core'; first [exact F1 | exact F2 | exact F3 | exact F4 | exact F5 | exact F6 | exact F7 | exact HK | exact FR
+  all: apply core'; first [exact F1 | exact F2 | exact F3 | exact F4 | exact F5 | exact F6 | exact F7 | exact F11 | exact HK | exact FR
                           | reflexivity | idtac].
   all: replace (byte_at p 1 mod 4) with (ih_tos_ecn (sg_ip s)) by (rewrite HIP; reflexivity);
        replace (bit (byte_at p 6) 7) with (ih_mbz (sg_ip s)) by (rewrite HIP; reflexivity);
@@ -377,6 +386,7 @@ Proof.
   assert (F8 : ih_ver (sg_ip s) = IpV6) by (symmetry; exact F1).
   assert (F9 : ih_df (sg_ip s) = false) by (rewrite HIP; reflexivity).
   assert (F10 : ih_mbz (sg_ip s) = false) by (rewrite HIP; reflexivity).
+  assert (F11 : th_win (sg_tcp s) < 65536) by (rewrite Hth; cbn [th_win]; apply be16_at_lt).
   destruct (spec_role (th_flags (sg_tcp s))) eqn:R.
   { intros _. rewrite visit_tcp_invalid by (rewrite Hth in R; exact R).
     unfold render. rewrite FR, R. reflexivity. }
@@ -384,7 +394,7 @@ Proof.
        repeat (apply orb_false_iff in HK'; destruct HK' as [HK' ?]).
   all: rewrite (visit_tcp_nf _ _ _ _ IpV6 _ _ _ _ DT) in HK |- * by (try congruence; apply good_of_known; assumption).
   all: rewrite ipv6_quirks_bits in HK |- *.
-  all: apply core'; first [exact F1 | exact F3 | exact F5 | exact F6 | exact F7 | exact HK | exact FR
+  all: apply core'; first [exact F1 | exact F3 | exact F5 | exact F6 | exact F7 | exact F11 | exact HK | exact FR
                           | (rewrite HIP; reflexivity) | reflexivity | idtac].
   all: replace ((byte_at p 1 / 16) mod 4) with (ih_tos_ecn (sg_ip s)) by (rewrite HIP; reflexivity);
        replace ((byte_at p 1 mod 16) * 65536 + be16_at p 2) with (ih_flow (sg_ip s)) by (rewrite HIP; reflexivity).
